@@ -114,8 +114,13 @@ def _load_plugins():
     d = pathlib.Path(__file__).resolve().parent / "srcspec"
     for f in sorted(d.glob("C[0-9][0-9].py")):
         m = importlib.import_module(f"harness.srcspec.{f.stem}")
-        SPEC.setdefault(f.stem, [])
-        SPEC[f.stem] = SPEC[f.stem] + list(getattr(m, "UNITS", []))
+        if f.stem in CORE_PROPS:
+            # the property is tied already (SPEC above + ProofsGen/Src<prop>.lean): the plug-in's functions are translated into a
+            # second file Generated/Src<prop>b.lean (namespace Rpylib.Src.<prop>b) with their own obligations ProofsGen/Src<prop>b.lean
+            # and audit Audit/<prop>Srcb.lean, so that the first tie is untouched by work on the second
+            PLUGIN_UNITS[f.stem] = list(getattr(m, "UNITS", []))
+        else:
+            SPEC[f.stem] = list(getattr(m, "UNITS", []))
         if hasattr(m, "search"):
             prev = globals().get(f"_search_{f.stem}")
 
@@ -127,6 +132,8 @@ def _load_plugins():
 
 
 PLUGIN_SEARCH: dict = {}
+PLUGIN_UNITS: dict = {}
+CORE_PROPS = frozenset(SPEC)
 
 
 def header(prop, units, report):
@@ -140,23 +147,19 @@ def header(prop, units, report):
     return "\n".join(lines)
 
 
-def generate(prop: str, repo_root, force=False) -> dict | None:
-    units = SPEC.get(prop)
-    if not units:
-        return None
-    if not (HERE / "lean" / "RpylibModel" / "ProofsGen" / f"Src{prop}.lean").exists() and not force:
-        return None                      # no obligations written yet for this property: nothing to tie
+def _gen_file(prop: str, suffix: str, units, repo_root):
+    """translate `units` into Generated/Src<prop><suffix>.lean; returns (path, report, unavailable)"""
     GEN.mkdir(exist_ok=True)
     body, report = [], {}
     for u in units:
         text, rep = P.translate_unit(repo_root, u, prop)
         body.append(text)
         report.update(rep)
-    ns = f"Rpylib.Src.{prop}"
+    ns = f"Rpylib.Src.{prop}{suffix}"
     unavailable = {q: r for q, r in report.items() if r != "ok"}
     out = header(prop, units, report) + f"\nimport RpylibModel.Basic.PyPrelude\n\nnamespace {ns}\n\n" + "\n".join(body)
     # functions that could not be translated: keep the file elaborating with the recorded translation of the validated source
-    base = GEN / "baseline" / f"Src{prop}.lean"
+    base = GEN / "baseline" / f"Src{prop}{suffix}.lean"
     if unavailable and base.exists():
         btxt = base.read_text()
         for u in units:
@@ -167,13 +170,33 @@ def generate(prop: str, repo_root, force=False) -> dict | None:
                         if blk and f"def {nm} " not in out:
                             out += "\n-- RECORDED translation (the current source is outside the translatable subset)\n" + blk + "\n"
     out += f"\nend {ns}\n"
-    target = GEN / f"Src{prop}.lean"
+    target = GEN / f"Src{prop}{suffix}.lean"
     if not target.exists() or target.read_text() != out:
         target.write_text(out)
-    align = HERE / "lean" / "RpylibModel" / "ProofsGen" / f"Src{prop}Model.lean"
-    return {"file": str(target.relative_to(HERE)), "functions": report, "unavailable": unavailable,
+    return target, report, unavailable
+
+
+def generate(prop: str, repo_root, force=False) -> dict | None:
+    units = SPEC.get(prop)
+    if not units:
+        return None
+    pg = HERE / "lean" / "RpylibModel" / "ProofsGen"
+    if not (pg / f"Src{prop}.lean").exists() and not force:
+        return None                      # no obligations written yet for this property: nothing to tie
+    target, report, unavailable = _gen_file(prop, "", units, repo_root)
+    info = {"file": str(target.relative_to(HERE)), "functions": report, "unavailable": unavailable,
             "lean_target": f"RpylibModel.ProofsGen.Src{prop}",
-            "align_target": f"RpylibModel.ProofsGen.Src{prop}Model" if align.exists() else None}
+            "align_target": f"RpylibModel.ProofsGen.Src{prop}Model" if (pg / f"Src{prop}Model.lean").exists() else None,
+            "extra_targets": [], "extra_audits": []}
+    if PLUGIN_UNITS.get(prop) and ((pg / f"Src{prop}b.lean").exists() or force):
+        t2, rep2, un2 = _gen_file(prop, "b", PLUGIN_UNITS[prop], repo_root)
+        info["functions"] = {**report, **rep2}
+        info["unavailable"] = {**unavailable, **un2}
+        info["file_b"] = str(t2.relative_to(HERE))
+        if (pg / f"Src{prop}b.lean").exists():
+            info["extra_targets"].append(f"RpylibModel.ProofsGen.Src{prop}b")
+            info["extra_audits"].append("Srcb")
+    return info
 
 
 def _extract_def(text: str, name: str):
@@ -192,13 +215,15 @@ def record_baseline(prop):
     """developer helper: store the translation of the validated source (python -m harness.srctie C14)"""
     (GEN / "baseline").mkdir(exist_ok=True, parents=True)
     (GEN / "baseline" / f"Src{prop}.lean").write_text((GEN / f"Src{prop}.lean").read_text())
+    if (GEN / f"Src{prop}b.lean").exists() and PLUGIN_UNITS.get(prop):
+        (GEN / "baseline" / f"Src{prop}b.lean").write_text((GEN / f"Src{prop}b.lean").read_text())
 
 
 if __name__ == "__main__":
     import os
     import sys
     from harness import srctie as _st       # the imported module (not __main__) owns SPEC and the plug-ins
-    SPEC, generate, record_baseline = _st.SPEC, _st.generate, _st.record_baseline
+    SPEC, generate, record_baseline, PLUGIN_UNITS = _st.SPEC, _st.generate, _st.record_baseline, _st.PLUGIN_UNITS
     repo = os.environ.get("VERIF_REPO", "/repo")
     for p in sys.argv[1:] or list(SPEC):
         info = generate(p, repo, force=True)
@@ -214,7 +239,7 @@ if __name__ == "__main__":
 def harvest_literals(prop, repo_root):
     import ast
     vals = set()
-    for u in SPEC.get(prop, []):
+    for u in list(SPEC.get(prop, [])) + list(PLUGIN_UNITS.get(prop, [])):
         try:
             tree = ast.parse((pathlib.Path(repo_root) / u.path).read_text())
         except Exception:
